@@ -6,6 +6,7 @@ package ua
 
 import (
 	"fmt"
+	"io"
 	"reflect"
 	"time"
 
@@ -141,8 +142,14 @@ func (m *Variant) Decode(b []byte) (int, error) {
 
 	// read flattened array elements
 	n := int(m.arrayLength)
-	if n > MaxVariantArrayLength {
+	if n < -1 || n > MaxVariantArrayLength {
 		return buf.Pos(), StatusBadEncodingLimitsExceeded
+	}
+
+	// every element is at least one byte long. Do not allocate
+	// memory for elements which cannot be in the buffer.
+	if n > buf.Len() {
+		return buf.Pos(), io.ErrUnexpectedEOF
 	}
 
 	// get the type for the slice
@@ -172,6 +179,9 @@ func (m *Variant) Decode(b []byte) (int, error) {
 		if m.arrayDimensionsLength < 0 {
 			return buf.Pos(), StatusBadEncodingLimitsExceeded
 		}
+		if int(m.arrayDimensionsLength) > buf.Len()/4 {
+			return buf.Pos(), io.ErrUnexpectedEOF
+		}
 		m.arrayDimensions = make([]int32, m.arrayDimensionsLength)
 		for i := 0; i < int(m.arrayDimensionsLength); i++ {
 			m.arrayDimensions[i] = buf.ReadInt32()
@@ -191,11 +201,15 @@ func (m *Variant) Decode(b []byte) (int, error) {
 	// validate that the total number of elements
 	// matches the product of the array dimensions
 	if m.arrayDimensionsLength > 0 {
-		count := int32(1)
+		// use 64 bit and stop early to avoid an overflow of the product
+		count := int64(1)
 		for i := range m.arrayDimensions {
-			count *= m.arrayDimensions[i]
+			count *= int64(m.arrayDimensions[i])
+			if count > int64(MaxVariantArrayLength) {
+				return buf.Pos(), errUnbalancedSlice
+			}
 		}
-		if count != m.arrayLength {
+		if count != int64(m.arrayLength) {
 			return buf.Pos(), errUnbalancedSlice
 		}
 	}
